@@ -1,2 +1,43 @@
-From PauLie Require Import Linear.
-Example C12_placeholder : True. Proof. exact I. Qed.
+(* C12 — linear combinations behave as the matrices they denote (Model/Linear.v, exact Gaussian-integer
+   coefficients; floating-point tolerances and formatting are not modelled).  For every n and all term lists. *)
+From PauLie Require Import Pauli Matrix MatrixT Linear LinearT.
+
+Theorem C12_matmul : forall n a b r c, all_n n a -> all_n n b -> length r = n -> length c = n ->
+  denote (lmatmul a b) r c = mmul n (denote a) (denote b) r c.
+Proof. exact denote_matmul. Qed.
+Print Assumptions C12_matmul.
+Theorem C12_add : forall a b r c, denote (ladd a b) r c = gadd (denote a r c) (denote b r c).
+Proof. exact denote_add. Qed.
+Print Assumptions C12_add.
+Theorem C12_scale : forall s a r c, denote (lscale s a) r c = gmul s (denote a r c).
+Proof. exact denote_scale. Qed.
+Print Assumptions C12_scale.
+(* a.h denotes the conjugate transpose *)
+Theorem C12_herm : forall a r c, denote (lherm a) r c = gconj (denote a c r).
+Proof. exact denote_herm. Qed.
+Print Assumptions C12_herm.
+Theorem C12_simplify : forall a r c, denote (simplify a) r c = denote a r c.
+Proof. exact denote_simplify. Qed.
+Print Assumptions C12_simplify.
+Theorem C12_trace : forall n a, a <> [] -> all_n n a -> ltrace a = mtrace n (denote a).
+Proof. exact trace_spec. Qed.
+Print Assumptions C12_trace.
+(* zero-ness exactly when the matrix vanishes: uses the linear independence of the Pauli matrices over Z[i],
+   proved from trace orthogonality *)
+Theorem C12_zero_iff : forall n a, all_n n a -> (lis_zero a = true <-> meq n (denote a) mzero).
+Proof. exact zero_iff. Qed.
+Print Assumptions C12_zero_iff.
+(* matrices equal exactly when the collected coefficients agree (what __eq__ compares after simplification) *)
+Theorem C12_eq_matrices : forall n a b, all_n n a -> all_n n b ->
+  (meq n (denote a) (denote b) <-> forall p, length p = n -> coef a p = coef b p).
+Proof. exact denote_eq_iff_coef. Qed.
+Print Assumptions C12_eq_matrices.
+
+(* the pinned snapshot, refuted on its own model *)
+Theorem C12_refuted_snapshot :
+  lmatmul_alias_old [((1,0), [PX]); ((1,0), [PZ])]%Z = [((1,0), [PI]); ((0,-1), [PY])]%Z /\
+  lmatmul [((1,0), [PX]); ((1,0), [PZ])]%Z [((1,0), [PX]); ((1,0), [PZ])]%Z = [((2,0), [PI])]%Z /\
+  ltrace_old [((1,0), [PI]); ((2,0), [PI])]%Z = (2,0)%Z /\ ltrace [((1,0), [PI]); ((2,0), [PI])]%Z = (6,0)%Z /\
+  lis_zero_old [((1,0), [PX]); ((-1,0), [PX])]%Z = false /\ lis_zero [((1,0), [PX]); ((-1,0), [PX])]%Z = true.
+Proof. vm_compute. repeat split. Qed.
+Print Assumptions C12_refuted_snapshot.
